@@ -27,7 +27,7 @@ RULE = ("(generated) valid current descriptions (C01/C02/C03/C04 generators) are
 ASSUMPTIONS = ["composeinfo 0.x has no format document: the down-conversion follows the mapping the legacy readers document in their code comments",
                "images 1.0 documents whose identities collide once the subvariant defaults to '' are a recorded known finding (KF-C05-images-1.0-collision) and are not generated",
                "treeinfo 0.0: family names triggering the RHEL/Fedora/CentOS heuristics, versions containing '-'/'_', dashed main variants and timestamps truncating to 0 are not generated"]
-FLOORS = {"composeinfo": 300, "images": 150, "rpms": 150, "treeinfo": 300, "fixtures": 100,
+FLOORS = {"treeinfo:children-under-variants-key": 30, "treeinfo-pre-productmd-addons:explicit-kind": 50, "composeinfo": 300, "images": 150, "rpms": 150, "treeinfo": 300, "fixtures": 100,
           "composeinfo:v0.0": 20, "composeinfo:v0.3": 20, "composeinfo:v0.9": 20, "composeinfo:v1.0": 20, "composeinfo:v1.1": 20,
           "treeinfo:v0.0": 30, "treeinfo:v0.3": 30, "treeinfo:v1.0": 30, "treeinfo:v1.1": 30, "images:v1.0": 30, "images:v1.1": 30,
           "rpms:v0.3": 30, "rpms:v1.0": 20, "rpms:v1.1": 20}
@@ -159,7 +159,74 @@ def treeinfo_case(case):
     want = dc.legacy_ti_expected(case)
     upgrade_cycle("treeinfo " + version, TreeInfo, old_text, tim.snapshot, want, "productmd.treeinfo", dump=lambda o: tim.dump_text(o, None))
     src = desc["tree"]["arch"] == "src"
-    return {"nontrivial": True, "labels": ["v" + version] + (["src-tree"] if src else [])}
+    kids_under_variants = version != "0.0" and case.get("child_keys", "as-written") != "as-written" and any(
+        k["type"] != "addon" or case["child_keys"] == "all-variants" for n in tim.all_nodes(desc["variants"]) for k in n["children"])
+    return {"nontrivial": True, "labels": ["v" + version] + (["src-tree"] if src else []) + (["children-under-variants-key"] if kids_under_variants else [])}
+
+
+# ---- pre-productmd trees with add-on sections (the RHEL 6 shape) ----------------------------------------------------------
+_addon = st.fixed_dictionaries({"name": st.sampled_from(["High Availability", "Load Balancer", "Resilient Storage", "X", "Scalable File System"]),
+                                "repo_style": st.sampled_from(["id", "addons/id"]), "packages": st.booleans(), "identity": st.booleans(),
+                                "explicit_type": st.booleans(), "name_given": st.integers(0, 4).map(lambda i: i > 0)})
+pre_addons_strategy = st.fixed_dictionaries({
+    "family": st.sampled_from(["Red Hat Enterprise Linux", "Foo Linux", "CentOS"]), "version": st.sampled_from(["6.5", "6.0", "3.1", "12"]),
+    "main": st.sampled_from(["Server", "Client", "Workstation", "ComputeNode"]), "main_section": st.sampled_from([None, "plain", "typed"]),
+    "arch": st.sampled_from(["x86_64", "i386", "ppc64"]),
+    "addons": st.dictionaries(st.sampled_from(["HighAvailability", "LoadBalancer", "ResilientStorage", "HA", "LB", "ScalableFileSystem"]), _addon, min_size=1, max_size=3)})
+
+
+def pre_addons_text(case, explicit):
+    ids = sorted(case["addons"])
+    out = ["[general]", "family = %s" % case["family"], "version = %s" % case["version"], "variant = %s" % case["main"], "addons = %s" % ",".join(ids),
+           "arch = %s" % case["arch"], "timestamp = 1384196515.415715", "packagedir = Packages", "repository = .", ""]
+    if case["main_section"]:
+        out += ["[variant-%s]" % case["main"], "name = %s" % case["main"], "repository = ."]
+        if case["main_section"] == "typed" and explicit:
+            out.append("type = variant")
+        out.append("")
+    for i in ids:
+        a = case["addons"][i]
+        repo = i if a["repo_style"] == "id" else "addons/" + i
+        out += ["[addon-%s]" % i, "repository = %s" % repo]
+        if a["name_given"]:
+            out.append("name = %s" % a["name"])
+        if a["packages"]:
+            out.append("packages = %s/Packages" % repo)
+        if a["identity"]:
+            out.append("identity = %s/%s.cert" % (repo, i))
+        if a["explicit_type"] and explicit:
+            out.append("type = addon")
+        out.append("")
+    return "\n".join(out)
+
+
+def pre_addons_case(case):
+    """oracle: (a) what the sections say about each add-on (id, UID below the main variant, name, kind, repository) is what the tree holds;
+    (b) metamorphic: stating the kind a section's name already implies ('type = addon' in [addon-X]) changes nothing; (c) upgrade cycle"""
+    from productmd.treeinfo import TreeInfo
+    plain, typed = pre_addons_text(case, False), pre_addons_text(case, True)
+    snaps = []
+    for label, text in (("plain", plain), ("explicit-kinds", typed)):
+        ti = TreeInfo()
+        must("load-pre-productmd[%s]" % label, ti.loads, text)
+        main = ti.variants.variants.get(case["main"])
+        check(main is not None and sorted(ti.variants.variants) == [case["main"]], "pre-productmd-main-variant", lambda: "%s: top level holds %r" % (label, sorted(ti.variants.variants)))
+        got = dict((v.id, (v.uid, v.name, v.type, v.paths.repository)) for v in main.variants.values())
+        want = {}
+        for i, a in case["addons"].items():
+            want[i] = ("%s-%s" % (case["main"], i), a["name"] if a["name_given"] else i, "addon", i if a["repo_style"] == "id" else "addons/" + i)
+        check(got == want, "pre-productmd-addons-differ", lambda: "%s: sections say %r, tree holds %r" % (label, want, got))
+        snap = must("snapshot", tim.snapshot, ti)
+        snaps.append(snap)
+        first = must("dump-after-upgrade[pre-productmd]", ti.dumps)
+        again = TreeInfo()
+        must("reload-upgraded-file[pre-productmd]", again.loads, first)
+        d = diff(json.loads(json.dumps(snap, default=list)), json.loads(json.dumps(tim.snapshot(again), default=list)))
+        check(d is None, "reload-differs[pre-productmd]", lambda: "%s: %s" % (label, d))
+        check(must("second-dump", again.dumps) == first, "conversion-not-idempotent[pre-productmd]", "%s: second dump differs" % label)
+    d = diff(json.loads(json.dumps(snaps[0], default=list)), json.loads(json.dumps(snaps[1], default=list)))
+    check(d is None, "explicit-kind-changes-tree", lambda: "the same tree with the kinds of its sections spelled out: %s" % d)
+    return {"nontrivial": plain != typed, "labels": ["explicit-kind" if plain != typed else "no-explicit-kind", "%d-addons" % len(case["addons"])]}
 
 
 def fixture_cases():
@@ -233,7 +300,8 @@ def run(ctx):
     ctx.forall("images", dc.legacy_images_desc(), images_case, ctx.n(600, 20000))
     ctx.forall("rpms", rpms_strategy, rpms_case, ctx.n(700, 20000))
     ctx.forall("treeinfo", dc.legacy_ti_desc(), treeinfo_case, ctx.n(1400, 40000))
+    ctx.forall("treeinfo-pre-productmd-addons", pre_addons_strategy, pre_addons_case, ctx.n(500, 10000))
     ctx.sweep("fixtures", fixture_cases(), fixture_case, exhaustive=True, stop_after=10)
 
 
-REPLAY = {"composeinfo": composeinfo_case, "images": images_case, "rpms": rpms_case, "treeinfo": treeinfo_case, "fixtures": fixture_case}
+REPLAY = {"treeinfo-pre-productmd-addons": pre_addons_case, "composeinfo": composeinfo_case, "images": images_case, "rpms": rpms_case, "treeinfo": treeinfo_case, "fixtures": fixture_case}
